@@ -48,13 +48,13 @@ def _setup():
         raise LookupError("MDBSetOperation variants changed: %s" % ops)
 
 
-def _promoted_values(text, fn_name):
-    """{index: variant text} of `const <fn>::promoted[i]: &MDBSetOperation` bodies"""
+def _promoted_values(text, fn_name=None):
+    """{(function, index): variant} of all `const <fn>::promoted[i]: &MDBSetOperation` bodies of the crate"""
     out = {}
-    for m in re.finditer(r"const %s::promoted\[(\d+)\]: &(?:\w+::)*MDBSetOperation = \{(.*?)\n\}" % re.escape(fn_name), text, re.S):
-        mm = re.search(r"_1 = (?:\w+::)*MDBSetOperation::(\w+);", m.group(2))
+    for m in re.finditer(r"const ([\w:<> ]+?)::promoted\[(\d+)\]: &(?:\w+::)*MDBSetOperation = \{(.*?)\n\}", text, re.S):
+        mm = re.search(r"_1 = (?:\w+::)*MDBSetOperation::(\w+);", m.group(3))
         if mm:
-            out[int(m.group(1))] = mm.group(1)
+            out[(m.group(1).split("::")[-1], int(m.group(2)))] = mm.group(1)
     return out
 
 
@@ -63,7 +63,7 @@ class Tbl:
 
     def __init__(self, f, text, prefix):
         self.f = f
-        self.prom = _promoted_values(text, f.name.split("::")[-1])
+        self.prom = _promoted_values(text)
         self.union = prefix + "op_is_union"
         self.lt, self.eq = prefix + "h0_lt_h1", prefix + "h0_eq_h1"
         models = dict(symex.STD_MODELS)
@@ -85,10 +85,10 @@ class Tbl:
     def m_opeq(self, sym, path, args, dty):
         # second operand: a promoted constant `&MDBSetOperation::X`
         t = sym.cur_term
-        m = re.search(r"promoted\[(\d+)\]", " ".join(sym.fn.blocks[sym.cur_bb][0]))
-        if not m or int(m.group(1)) not in self.prom:
+        m = re.search(r"const (?:[\w:<> ]*::)?(\w+)::promoted\[(\d+)\]", " ".join(sym.fn.blocks[sym.cur_bb][0]))
+        if not m or (m.group(1), int(m.group(2))) not in self.prom:
             return None
-        which = self.prom[int(m.group(1))]
+        which = self.prom[(m.group(1), int(m.group(2)))]
         return symex.boolean(self.union if which == "Union" else mk_not(self.union))
 
     def m_ordeq(self, sym, path, args, dty):
